@@ -102,5 +102,5 @@ SlotsOK(prog) == ~DuplicateRequest(prog) /\ CellsUpperBound(prog) <= 256
 
 Accepts(prog, version, mode) ==
   version >= ProgMinV(prog) /\ version <= 10 /\ ModeOK(prog, mode) /\ ~MustReject(prog) /\ NoRefRecursion(prog)
-  /\ SlotsOK(prog)
+  /\ SlotsOK(prog) /\ BadLoadsDeadCode(prog) = {}
 =============================================================================
